@@ -62,7 +62,8 @@ def units(tier, seed):
                 for pc in (1, 2, 3):
                     out.append(dict(kind="ports", platform=plat, template=ti, side=side, port_count=pc))
         out.append(dict(kind="both", platform=plat))
-        out.append(dict(kind="protocols", platform=plat))
+        for ti in range(len(PTEMPLATES)):
+            out.append(dict(kind="protocols", platform=plat, ptemplate=ti))
     return out
 
 
@@ -78,7 +79,7 @@ def run_unit(unit, ctx):
     elif unit["kind"] == "both":
         _both(unit["platform"], ctx)
     else:
-        _protocols(unit["platform"], ctx)
+        _protocols(unit["platform"], ctx, unit.get("ptemplate"))
 
 
 def replay(case, ctx):
@@ -273,7 +274,7 @@ def _both(platform, ctx):
     ctx.sample("both", dict(platform=platform))
 
 
-def _protocols(platform, ctx):
+def _protocols(platform, ctx, only=None):
     from cisco_acl import range_protocols
 
     from vf.refsem.reader import PROTO_NAMES
@@ -291,7 +292,7 @@ def _protocols(platform, ctx):
                     want.update(range(lo, hi + 1))
                 else:
                     want.add(int(t))
-            for template in PTEMPLATES:
+            for template in (PTEMPLATES if only is None else [PTEMPLATES[only]]):
                 if (" eq " in template or " range " in template) and not want <= {6, 17}:
                     continue  # a template with ports makes sense for tcp/udp only
                 for pnr in (False, True):
